@@ -66,7 +66,7 @@ const UVARS: &[&str] = &["θ", "φ2", "é", "変数", "λ_"];
 const QUBITS: &[&str] = &["q", "r", "anc", "qq"];
 const GATES: &[&str] = &["g", "g2", "mygate", "bell"];
 const DEFS: &[&str] = &["f", "sub", "fn3"];
-const COLLIDE: &[&str] = &["pi", "U", "h", "cx", "tau", "rz"];
+const COLLIDE: &[&str] = &["pi", "U", "h", "cx", "tau", "rz", "π", "τ", "ℇ"];
 const STD1: &[(&str, usize, usize)] = &[
     ("x", 0, 1), ("h", 0, 1), ("s", 0, 1), ("sdg", 0, 1), ("t", 0, 1), ("sx", 0, 1), ("id", 0, 1), ("p", 1, 1), ("rx", 1, 1),
     ("rz", 1, 1), ("phase", 1, 1), ("u2", 2, 1), ("u3", 3, 1), ("cx", 0, 2), ("cz", 0, 2), ("swap", 0, 2), ("CX", 0, 2),
